@@ -41,6 +41,9 @@ class CirqExporter(QCircuitExporter):
                             gate_mapping[g_name] if g_name in gate_mapping else g_name
                         )
 
+                        if issubclass(g.__class__, gates.NopGate):
+                            continue
+
                         if isinstance(g, gates.MCX) or (
                             isinstance(g, gates.MCtrl) and isinstance(g.gate, gates.X)
                         ):
